@@ -53,7 +53,7 @@ VARIANTS = [
     M("C03", "extent-max-start", C, '"""\n                        SELECT MIN(start), MAX(end), strand, seqid', '"""\n                        SELECT MAX(start), MAX(end), strand, seqid', "R2"),
     M("C03", "extent-no-type-filter", C, '                        WHERE parent = ? AND featuretype == ?\n                        """,\n                        (transcript_id, self.subfeature),',
       '                        WHERE parent = ?\n                        """,\n                        (transcript_id,),', "R2"),
-    M("C03", "flags-swapped", C, "                if not self.disable_infer_transcripts:\n                    # transcript extent", "                if not self.disable_infer_genes:\n                    # transcript extent", "R3"),
+    M("C03", "flags-swapped", C, "                if not self.disable_infer_transcripts:\n                    # transcript extent", "                if not self.disable_infer_genes:\n                    # transcript extent", "R2"),
     M("C03", "transcript-link-level-2", C, "relations.append((parent, f.id, 1))", "relations.append((parent, f.id, 2))", "R1"),
     M("C03", "derived-collision-replace", C, 'fixed, final_strategy = self._do_merge(f, "merge")', 'fixed, final_strategy = self._do_merge(f, "replace")', "R4"),
     M("C03", "routing-typo", C, 'elif dialect["fmt"] == "gtf":', 'elif dialect["fmt"] == "gft":', "R5"),
